@@ -427,12 +427,11 @@ def analyzer(sp, x, method=None):
     from nitime.analysis import SpectralAnalyzer
     T = ts.TimeSeries(np.array(x), sampling_rate=sp['Fs'])
     if sp['entry'] == 'an_mt':
-        method = {'NW': sp['NW'], 'adaptive': bool(sp.get('adaptive')), 'low_bias': sp.get('low_bias', True)}
-        try:
-            an = SpectralAnalyzer(T, method=method)
-            return an
-        except Exception:
-            raise
+        # spectrum_multi_taper takes BW / adaptive / low_bias from the CONSTRUCTOR arguments (NW is not an option there:
+        # BW = NW * 2 * Fs / n gives the requested NW through multi_taper_psd's own rounding)
+        n = np.shape(x)[-1]
+        BW = None if sp.get('NW', 4) == 4 else sp['NW'] * 2.0 * sp['Fs'] / n
+        return SpectralAnalyzer(T, BW=BW, adaptive=bool(sp.get('adaptive')), low_bias=bool(sp.get('low_bias', True)))
     return SpectralAnalyzer(T, method=method) if method is not None else SpectralAnalyzer(T)
 
 
